@@ -40,8 +40,9 @@ func (l *Linter) lintAclDeclaration(decl *ast.AclDeclaration, ctx *context.Conte
 	}
 
 	// Check ignored UNUSED_DECLARATION rule and mark as used
-	if l.ignore.IsEnable(UNUSED_DECLARATION) {
-		ctx.Acls[decl.Name.Value].IsUsed = true
+	// (the declaration which carries the comment, not an earlier one of the same name)
+	if a, ok := ctx.Acls[decl.Name.Value]; ok && a.Decl == decl && l.ignore.IsEnable(UNUSED_DECLARATION) {
+		a.IsUsed = true
 	}
 
 	return types.NeverType
@@ -59,8 +60,8 @@ func (l *Linter) lintBackendDeclaration(decl *ast.BackendDeclaration, ctx *conte
 	}
 
 	// Check ignored UNUSED_DECLARATION rule and mark as used
-	if l.ignore.IsEnable(UNUSED_DECLARATION) {
-		ctx.Backends[decl.Name.Value].IsUsed = true
+	if b, ok := ctx.Backends[decl.Name.Value]; ok && b.BackendDecl == decl && l.ignore.IsEnable(UNUSED_DECLARATION) {
+		b.IsUsed = true
 	}
 
 	return types.NeverType
@@ -139,8 +140,8 @@ func (l *Linter) lintDirectorDeclaration(decl *ast.DirectorDeclaration, ctx *con
 	l.lintDirectorProperty(decl, ctx)
 
 	// Check ignored UNUSED_DECLARATION rule and mark as used
-	if l.ignore.IsEnable(UNUSED_DECLARATION) {
-		ctx.Directors[decl.Name.Value].IsUsed = true
+	if d, ok := ctx.Directors[decl.Name.Value]; ok && d.Decl == decl && l.ignore.IsEnable(UNUSED_DECLARATION) {
+		d.IsUsed = true
 	}
 
 	return types.NeverType
@@ -261,8 +262,8 @@ func (l *Linter) lintTableDeclaration(decl *ast.TableDeclaration, ctx *context.C
 	}
 
 	// Check ignored UNUSED_DECLARATION rule and mark as used
-	if l.ignore.IsEnable(UNUSED_DECLARATION) {
-		ctx.Tables[decl.Name.Value].IsUsed = true
+	if t, ok := ctx.Tables[decl.Name.Value]; ok && t.Decl == decl && l.ignore.IsEnable(UNUSED_DECLARATION) {
+		t.IsUsed = true
 	}
 
 	return types.NeverType
@@ -417,14 +418,14 @@ func (l *Linter) lintSubRoutineDeclaration(decl *ast.SubroutineDeclaration, ctx 
 	cc.ReturnType = nil
 
 	// Check ignored UNUSED_DECLARATION rule and mark as used
-	if l.ignore.IsEnable(UNUSED_DECLARATION) {
-		ctx.Subroutines[decl.Name.Value].IsUsed = true
+	if sub, ok := ctx.Subroutines[decl.Name.Value]; ok && sub.Decl == decl && l.ignore.IsEnable(UNUSED_DECLARATION) {
+		sub.IsUsed = true
 	}
 
 	return types.NeverType
 }
 
-func (l *Linter) lintPenaltyboxDeclaration(decl *ast.PenaltyboxDeclaration) types.Type {
+func (l *Linter) lintPenaltyboxDeclaration(decl *ast.PenaltyboxDeclaration, ctx *context.Context) types.Type {
 	// validate penaltybox name
 	if !isValidName(decl.Name.Value) {
 		l.Error(InvalidName(decl.Name.GetMeta(), decl.Name.Value, "penaltybox").Match(PENALTYBOX_SYNTAX))
@@ -434,10 +435,15 @@ func (l *Linter) lintPenaltyboxDeclaration(decl *ast.PenaltyboxDeclaration) type
 		l.Error(NonEmptyPenaltyboxBlock(decl.GetMeta(), decl.Name.Value).Match(PENALTYBOX_NONEMPTY_BLOCK))
 	}
 
+	// Check ignored UNUSED_DECLARATION rule and mark as used
+	if pb, ok := ctx.Penaltyboxes[decl.Name.Value]; ok && pb.Decl == decl && l.ignore.IsEnable(UNUSED_DECLARATION) {
+		pb.IsUsed = true
+	}
+
 	return types.NeverType
 }
 
-func (l *Linter) lintRatecounterDeclaration(decl *ast.RatecounterDeclaration) types.Type {
+func (l *Linter) lintRatecounterDeclaration(decl *ast.RatecounterDeclaration, ctx *context.Context) types.Type {
 	// validate ratecounter name
 	if !isValidName(decl.Name.Value) {
 		l.Error(InvalidName(decl.Name.GetMeta(), decl.Name.Value, "ratecounter").Match(RATECOUNTER_SYNTAX))
@@ -445,6 +451,11 @@ func (l *Linter) lintRatecounterDeclaration(decl *ast.RatecounterDeclaration) ty
 
 	if len(decl.Block.Statements) > 0 {
 		l.Error(NonEmptyRatecounterBlock(decl.GetMeta(), decl.Name.Value).Match(RATECOUNTER_NONEMPTY_BLOCK))
+	}
+
+	// Check ignored UNUSED_DECLARATION rule and mark as used
+	if rc, ok := ctx.Ratecounters[decl.Name.Value]; ok && rc.Decl == decl && l.ignore.IsEnable(UNUSED_DECLARATION) {
+		rc.IsUsed = true
 	}
 
 	return types.NeverType
